@@ -20,6 +20,9 @@ pub enum Case {
     Generated(ContainerSpec),
     /// (b) a file set of the committed reference corpus read by the current reader
     Corpus(String),
+    /// (a') a container assembled with the low-level creators: `packs` content packs in one file,
+    /// each with its own free data (manifest value store with more than 256 values when packs > 256)
+    ManyPacks { packs: u16, comp: Comp },
 }
 
 #[derive(Serialize, Deserialize, Clone, Debug)]
@@ -163,7 +166,11 @@ impl Property for C14 {
     }
 
     fn fixed_cases(_tier: Tier) -> Vec<Case> {
-        corpus_names().into_iter().map(Case::Corpus).collect()
+        let mut v: Vec<Case> = corpus_names().into_iter().map(Case::Corpus).collect();
+        v.push(Case::ManyPacks { packs: 3, comp: Comp::None });
+        v.push(Case::ManyPacks { packs: 255, comp: Comp::None });
+        v.push(Case::ManyPacks { packs: 300, comp: Comp::Zstd(3) });
+        v
     }
 
     fn required_classes(_tier: Tier) -> Vec<&'static str> {
@@ -188,6 +195,8 @@ impl Property for C14 {
             "corpus:packaging:TwoFiles",
             "corpus:comp:lzma",
             "corpus:variants",
+            "many-packs",
+            "free-data-id>=256",
         ]
     }
 
@@ -205,6 +214,72 @@ impl Property for C14 {
                 let mut cls = info.classes.clone();
                 cls.sort();
                 info.key = hash_str(&format!("{:?}|{}|{}", cls, built.model.contents.len(), nentries));
+                Ok(info)
+            }
+            Case::ManyPacks { packs, comp } => {
+                info.class("many-packs");
+                let dir = ctx.subdir("c14many");
+                let path = jbk::Utf8PathBuf::from_path_buf(dir.join("a.jbk")).unwrap();
+                let io = |e: std::io::Error| Failure::new("create-error", format!("many-packs container: {e}"));
+                let jb = |e: jbk::creator::Error| Failure::new("create-error", format!("many-packs container: {e}"));
+                let mut container = jbk::creator::ContainerPackCreator::new(&path, Default::default()).map_err(io)?;
+                let mut contents: Vec<(jbk::ContentAddress, Vec<u8>)> = vec![];
+                let mut datas = vec![];
+                for k in 0..*packs {
+                    let file = container.into_file().map_err(io)?;
+                    let mut cp = jbk::creator::ContentPackCreator::new_from_output(file, jbk::PackId::from(k + 1), vendor(), Default::default(), comp.to_jbk()).map_err(io)?;
+                    let b = content_bytes(k as u32 + 77, 5 + (k % 40) as usize, Entropy::Text);
+                    let a = cp.add_content(Box::new(std::io::Cursor::new(b.clone())), jbk::creator::CompHint::Detect).map_err(io)?;
+                    contents.push((a, b));
+                    let (file, mut data) = cp.finalize().map_err(io)?;
+                    // application specific free data of the pack, stored in the manifest's value store
+                    data.free_data = format!("free-data-of-pack-{k:05}").into_bytes();
+                    container = file.close(data.uuid).map_err(io)?;
+                    datas.push(data);
+                }
+                let addresses: Vec<(u16, u32)> = contents.iter().map(|(a, _)| (a.pack_id.into_u16(), a.content_id.into_u32())).collect();
+                let dmodel = build_model(&DirSpec::addresses_only(), &addresses);
+                let mut dp = jbk::creator::DirectoryPackCreator::new(jbk::PackId::from(0), vendor(), Default::default());
+                build_dir(&dmodel).install(&mut dp);
+                let fin = dp.finalize().map_err(io)?;
+                let mut file = container.into_file().map_err(io)?;
+                let dir_data = fin.write(&mut file).map_err(jb)?;
+                container = file.close(dir_data.uuid).map_err(io)?;
+                let mut manifest = jbk::creator::ManifestPackCreator::new(vendor(), Default::default());
+                manifest.add_pack(dir_data, "");
+                for d in datas {
+                    manifest.add_pack(d, "");
+                }
+                let mut file = container.into_file().map_err(io)?;
+                let muuid = manifest.finalize(&mut file).map_err(jb)?;
+                container = file.close(muuid).map_err(io)?;
+                container.finalize().map_err(io)?;
+                let mut pack_counts = std::collections::BTreeMap::new();
+                for k in 0..*packs {
+                    pack_counts.insert(k + 1, 1u32);
+                }
+                let model = ContainerModel { contents, pack_counts, dir: dmodel };
+                // the independent decoder: every block CRC, every pack's blake3, the manifest's masked
+                // blake3 (bytes 38..256 of every pack info), pack infos, copied check infos
+                info.evals = verify_indep_container(&dir, "a.jbk", &model, true)?.max(1);
+                // free data ids: all distinct, some need their high byte
+                let data = std::fs::read(path.as_std_path()).unwrap();
+                let fd = crate::indep::decode_file(&data).map_err(|e| Failure::new("indep-layout", e))?;
+                if let crate::indep::PackBody::Manifest(m) = &fd.packs[fd.find_kind(b'm').unwrap()].body {
+                    let ids: std::collections::BTreeSet<u16> = m.pack_infos.iter().filter(|p| p.pack_kind == b'c').map(|p| p.free_data_id).collect();
+                    ensure!(ids.len() == *packs as usize, "free-data-ids", "{} distinct free data ids for {packs} packs with distinct free data", ids.len());
+                    if ids.iter().any(|i| *i >= 256) {
+                        info.class("free-data-id>=256");
+                    }
+                }
+                // and the library reads it
+                let c = match jbk::reader::Container::new(path.as_std_path()) {
+                    Ok(c) => c,
+                    Err(e) => fail!("many-packs-unreadable", "{e}"),
+                };
+                verify_container(&c, &model, "many-packs:")?;
+                info.nontrivial = true;
+                info.key = hash_str(&format!("many{packs}{comp:?}"));
                 Ok(info)
             }
             Case::Corpus(name) => {
